@@ -6,6 +6,7 @@ combination is compared with it."""
 import itertools
 import json
 import random
+from concurrent.futures import ThreadPoolExecutor
 
 import torch
 
@@ -194,8 +195,8 @@ class DyadicKernel(gpytorch.kernels.Kernel):
                 + self.b * (x1 @ x2.transpose(-1, -2)))
 
 
-LARGE_SCALE = 2.0
-#                     updates) well below the comparison tolerance for the mean AND the covariance
+LARGE_SCALE = 2.0   # common factor of kernel and noise: balances linear_cg's stagnation floor (updates stop once
+#                     p^T A p < 1e-10) between mean and covariance, both well below the comparison tolerance
 
 
 def gen_large(rng, tier):
@@ -493,16 +494,26 @@ def compare(out, case, flags, res, mm, mc, b=0):
 def run(out, ctx):
     tier, seed = ctx["tier"], ctx["seed"]
     rng = random.Random(seed * 7919 + 1)
-    nc = dict(single=44, batch=10, multitask=10) if tier == "quick" else dict(single=400, batch=120, multitask=100)
+    nc = dict(single=44, batch=10, multitask=10, large=5) if tier == "quick" else dict(single=400, batch=120, multitask=100, large=14)
     flagnames = sorted(FLAGS)
     cases = [gen_case(rng, tier, fam) for fam in ("single", "batch", "multitask") for _ in range(nc[fam])]
+    cases += [gen_large(rng, tier) for _ in range(nc["large"])]
     prior = [impl_inputs(c) for c in cases]
     coq_cases, owner = [], []
     for ci, (c, els) in enumerate(zip(cases, prior)):
         for b, (KJ, mu, S, y) in enumerate(els):
             ntr = len(S)
             coq_cases.append(coq_case(ntr, len(mu) - ntr, KJ, mu, S, y)); owner.append((ci, b))
-    res = C.coq_run_cases("C01", IMPORTS, RUN_DEF, coq_cases, shard=6)
+    # the large cases (one exact 13..18-dimensional inversion each) get a coqc of their own, next to the small ones
+    big = [k for k, (ci, _) in enumerate(owner) if cases[ci]["family"] == "large"]
+    small = [k for k in range(len(owner)) if k not in set(big)]
+    with ThreadPoolExecutor(max_workers=2) as ex:
+        f_small = ex.submit(C.coq_run_cases, "C01", IMPORTS, RUN_DEF, [coq_cases[k] for k in small], 6)
+        f_big = ex.submit(C.coq_run_cases, "C01_large", IMPORTS, RUN_DEF, [coq_cases[k] for k in big], 1)
+        res = [None] * len(owner)
+        for ks, f in ((small, f_small), (big, f_big)):
+            for k, r in zip(ks, f.result()):
+                res[k] = r
     out.rule = ("random exact-GP problems: single-output (n<=%d, t<=3, d<=3, %d kernels - %d of them restricted to a proper subset "
                 "of the input columns by active_dims, on the top-level kernel or on the parts of a sum/product - x 3 means x 3 "
                 "likelihoods), batched (5 parameter/data broadcast patterns, every batch element compared with its own closed "
@@ -512,7 +523,11 @@ def run(out, ctx):
                 "object (a third of the batched / multitask cases do the latter); each under the default settings, every "
                 "single non-default flag (incl. CG with only eval_cg_tolerance tight and cg_tolerance at its default, and "
                 "settings.debug(False)) and random flag subsets; non-trivial = n_train>=2 and posterior variance differs "
-                "from the prior by >1e-6" % (5 if tier == "quick" else 7, len(KERNELS), len(ACTIVE_DIM_KERNELS)))
+                "from the prior by >1e-6; plus %d LARGE problems (n_train 13..%d, above the 10 iterations linear_cg runs before "
+                "it looks at its tolerance, so that the CG tolerances decide when the solver stops): exact dyadic "
+                "Brownian+linear kernel, dyadic fixed noise, drawn until Kxx+S passes the iterative-path guards; compared under "
+                "the default (Cholesky) path, both CG variants and the evaluation-tolerance-only variant with random other flags"
+                % (5 if tier == "quick" else 7, len(KERNELS), len(ACTIVE_DIM_KERNELS), nc["large"], 16 if tier == "quick" else 18))
     out.extra["tolerances"] = {"dense/cholesky": 1e-8, "cg or lanczos(full rank), cond<=%g, relative eigenvalue gap>=%g" % (COND_MAX, MIN_EIG_GAP): 1e-5,
                                 "marginal noise": 1e-9}
     model_by_case = {}
@@ -539,9 +554,16 @@ def run(out, ctx):
             continue
         els = model_by_case[ci]
         cond = max(v[2] for v in els.values())
-        combos = [()] + [(f,) for f in flagnames]
-        for _ in range(2 if tier == "quick" else 6):
-            combos.append(tuple(f for f in flagnames if rng.random() < 0.4))
+        if case["family"] == "large":
+            # the dense default, both CG variants, and the evaluation-tolerance-only variant with random other flags
+            rest = [f for f in flagnames if f not in ITERATIVE]
+            combos = [(), ("cg",), ("cg_eval_tol_only",)]
+            for _ in range(2 if tier == "quick" else 4):
+                combos.append(tuple(sorted(["cg_eval_tol_only"] + [f for f in rest if rng.random() < 0.4])))
+        else:
+            combos = [()] + [(f,) for f in flagnames]
+            for _ in range(2 if tier == "quick" else 6):
+                combos.append(tuple(f for f in flagnames if rng.random() < 0.4))
         for flags in combos:
             if cond > COND_MAX and ITERATIVE & set(flags):
                 out.count("rejected: cond(Kxx+S)>%g or relative eigenvalue gap<%g on an iterative path" % (COND_MAX, MIN_EIG_GAP))
